@@ -803,6 +803,22 @@ class Method:
             for x in a.args:
                 self.harmless(x)
             return
+        if isinstance(a, ast.Attribute) and isinstance(a.value, ast.Name) and (a.value.id, a.attr) in CONSTS \
+                and a.value.id not in self.vars:
+            return
+        if isinstance(a, ast.JoinedStr):            # f'…{x}…' / f'…{x!r}…' of harmless values, no format spec
+            for v in a.values:
+                if isinstance(v, ast.Constant):
+                    continue
+                if not (isinstance(v, ast.FormattedValue) and v.format_spec is None):
+                    raise Unsupported(a, 'argument of an exception that is not obviously harmless')
+                self.harmless(v.value)
+            return
+        if isinstance(a, ast.BinOp) and isinstance(a.op, ast.Mod) and isinstance(a.left, ast.Constant) \
+                and isinstance(a.left.value, str):      # '…%r…' % x  /  '…' % (x, y)
+            for x in (a.right.elts if isinstance(a.right, ast.Tuple) else [a.right]):
+                self.harmless(x)
+            return
         if isinstance(a, ast.Attribute) and a.attr == '__name__' and isinstance(a.value, ast.Call) \
                 and isinstance(a.value.func, ast.Name) and a.value.func.id == 'type' and len(a.value.args) == 1 \
                 and isinstance(a.value.args[0], ast.Name) and a.value.args[0].id in self.spec['params']:
